@@ -17,7 +17,10 @@ import (
 // (global middleware / route middleware / main handler, before and after c.Next(), OnError, OnPanic)
 // against a RECORDING http.ResponseWriter that answers every Write with a scripted (n, err).
 //
-//	chain <k> <GET|HEAD|POST> <onpanic> <onerror> <ct-hex|none> <nglobal> <nroute>
+//	chain <k> <GET|HEAD|POST> <onpanic> <onerror> <ct-hex|none> <nglobal> <nroute> [<wkind>]
+//	  wkind (optional, ignored by the model): which optional interfaces the recording writer has besides
+//	  http.Flusher — bit 1 io.ReaderFrom, bit 2 io.StringWriter (as the writers of a real net/http server have).
+//	  The unchanged rux never calls them, so the log is the one of the plain recorder.
 //	status <site> <code> <via> | hdr <site> <k> <v> | write <site> <hex|nil> <acc> <err> <via> | flush <site>
 //	  | error <site> <code> <msg> <acc> <err> <via> | redirect <site> <code|d> <url> <body> <acc> <err>
 //	  | wbytes <site> <hex|nil> <acc> <err> <via> | abort <site> <code> nomsg | abort <site> <code> msg <msg> <acc> <err>
@@ -121,6 +124,73 @@ func (w *recWriter) logString() string {
 	return strings.Join(parts, ",")
 }
 
+/**************** variants of the recording writer ****************/
+
+// The ResponseWriter of a real net/http server implements more than http.ResponseWriter: io.ReaderFrom (the
+// sendfile path of io.Copy), io.StringWriter, http.Flusher. The variants below add these interfaces to a
+// recorder. They record what arrives as ordinary writes of the same recorder (same scripted answers), so a
+// wrapper that commits the status first and then delegates leaves the log of the plain recorder, and a wrapper
+// that delegates without committing leaves a log without its WriteHeader.
+type recCore interface {
+	http.ResponseWriter
+	http.Flusher
+}
+
+const (
+	recHasReaderFrom   = 1
+	recHasStringWriter = 2
+	recVariantMask     = recHasReaderFrom | recHasStringWriter
+)
+
+type recRF struct{ recCore }
+type recSW struct{ recCore }
+type recRFSW struct{ recCore }
+
+func (w recRF) ReadFrom(src io.Reader) (int64, error)   { return recReadFrom(w.recCore, src) }
+func (w recRFSW) ReadFrom(src io.Reader) (int64, error) { return recReadFrom(w.recCore, src) }
+func (w recSW) WriteString(s string) (int, error)       { return w.recCore.Write([]byte(s)) }
+func (w recRFSW) WriteString(s string) (int, error)     { return w.recCore.Write([]byte(s)) }
+
+// recReadFrom: the generic copy loop of package io (32 KiB buffer, one Write per non-empty Read, a short
+// write stops with io.ErrShortWrite, io.EOF is no error), never looking for WriteTo/ReadFrom.
+func recReadFrom(w io.Writer, src io.Reader) (n int64, err error) {
+	buf := make([]byte, 32*1024)
+	for {
+		nr, er := src.Read(buf)
+		if nr > 0 {
+			nw, ew := w.Write(buf[:nr])
+			if nw < 0 || nw > nr {
+				nw = 0
+			}
+			n += int64(nw)
+			if ew != nil {
+				return n, ew
+			}
+			if nw < nr {
+				return n, io.ErrShortWrite
+			}
+		}
+		if er != nil {
+			if er != io.EOF {
+				err = er
+			}
+			return n, err
+		}
+	}
+}
+
+func wrapRec(core recCore, variant int) http.ResponseWriter {
+	switch variant & recVariantMask {
+	case recHasReaderFrom:
+		return recRF{core}
+	case recHasStringWriter:
+		return recSW{core}
+	case recHasReaderFrom | recHasStringWriter:
+		return recRFSW{core}
+	}
+	return core
+}
+
 /**************** parsing (mirrors Drv/Writer.lean) ****************/
 
 type wCfg struct {
@@ -130,6 +200,7 @@ type wCfg struct {
 	onError bool
 	ct      *string
 	ng, nr  int
+	wkind   int // variant of the recording writer (wrapRec)
 }
 
 func defaultWCfg() wCfg { return wCfg{k: 1, meth: "GET", nr: 0, ng: 0} }
@@ -219,6 +290,11 @@ func parseWChain(f []string) (wCfg, bool) {
 		nr, ok2 := parseNatOK(f[7])
 		if ok1 && ok2 && ng+nr+1 == k {
 			c.ng, c.nr = ng, nr
+		}
+	}
+	if len(f) >= 9 {
+		if wk, ok := parseNatOK(f[8]); ok && wk <= recVariantMask {
+			c.wkind = wk
 		}
 	}
 	return c, true
@@ -514,7 +590,7 @@ func (writerEngine) Run(ops []string) (ans []string, oracle []string) {
 					escaped = true
 				}
 			}()
-			router.ServeHTTP(run.rec, req)
+			router.ServeHTTP(wrapRec(run.rec, cfg.wkind), req)
 		}()
 		if run.ctx == nil {
 			oracle = append(oracle, "C08 harness: the first handler of the chain never ran")
@@ -697,6 +773,10 @@ func (writerEngine) Corpus() []Case {
 		{Ops: []string{"chain 1 GET 0 0 none 0 0", "hdr 0 " + hx("content-type") + " " + hx("x/y"), wRedirect("0", "0", "rel", 999, 0), "end"}, Tag: "corpus-redirect-ct2"},
 		// OnError runs after the chain and before the commit
 		{Ops: []string{"chain 2 GET 0 1 none 0 1", "adderr 1", "status E 500 0", "write E 65 1 0 0", "end", "status E 500 0", "end"}, Tag: "corpus-onerror"},
+		// the underlying writer has io.ReaderFrom and io.StringWriter (as the one of a real server): io.WriteString, Write, flush
+		{Ops: []string{"chain 2 GET 0 0 none 0 1 3", "status 0 201 0", "write 1 6869 2 0 1", "flush 1", "write 2 21 1 0 0", "end"}, Tag: "corpus-wkind"},
+		{Ops: []string{"chain 1 GET 0 0 none 0 0 2", "status 0 404 0", "write 0 68656c6c6f 2 1 1", "end"}, Tag: "corpus-wkind-sw"},
+		{Ops: []string{"chain 1 POST 0 0 none 0 0 1", "status 0 202 0", "wbytes 0 6162 2 0 1", "end", "status 0 204 0", "end"}, Tag: "corpus-wkind-rf"},
 	}
 }
 
@@ -839,7 +919,11 @@ func (e writerEngine) Gen(r *Rand, tier string) Case {
 		ct = hx(r.Pick(wCTs[:3]))
 	}
 	stream := r.Pick([]string{"general", "general", "status", "io", "nopanic"})
-	ops := []string{fmt.Sprintf("chain %d %s %s %s %s %d %d", k, meth, b2s(onPanic), b2s(onError), ct, ng, nr)}
+	wkind := 0
+	if r.Chance(1, 4) {
+		wkind = r.Range(1, recVariantMask)
+	}
+	ops := []string{fmt.Sprintf("chain %d %s %s %s %s %d %d %d", k, meth, b2s(onPanic), b2s(onError), ct, ng, nr, wkind)}
 	nreq := r.PickInt([]int{1, 1, 1, 2, 2, 3})
 	for q := 0; q < nreq; q++ {
 		n := r.PickInt([]int{0, 1, 2, 3, 4, 5, 6, 8, 10, 14})
